@@ -682,6 +682,10 @@ class BaseProxy(_BaseProxy_):
             kind, result = server._callmethod(
                 None, self._token.id, methodname, args, kwds
             )
+            if kind == '#ERROR' and isinstance(result, RemoteException):
+                # The message has not gone through pickling in this short-cut, hence the
+                # `RemoteException` has not turned back into the exception it carries.
+                result = result.exc
         else:
             try:
                 conn = self._tls.connection
